@@ -359,7 +359,7 @@ def check_round(sc: Scenario, fail: set, mode: str, nproc: int) -> tuple[str, st
 
     exp = expected_events(sc, fail, mode, allowed0, double)
     got = [ev[1] for ev in sim.events]
-    if len(exp) != len(got) or any(not all(_eq(a, b) for a, b in zip(r1, r2)) for r1, r2 in zip(exp, got)):
+    if len(exp) != len(got) or any(r2 is None or not all(_eq(a, b) for a, b in zip(r1, r2)) for r1, r2 in zip(exp, got)):
         return (f"run_connection_attempts:{mode}:merged-set", f"{len(exp)} successful searches ran but "
                 f"{len(got)} results were merged (or in a different order / with different data)", {})
     cur = before
@@ -555,7 +555,7 @@ def check_reconverge(rs: ReScenario, fail: set, what: str) -> tuple[str, str, di
 
     exp = [o for o in outs if o is not None] if what == "landscape" else []
     got = [ev[1] for ev in sim.events]
-    if len(exp) != len(got) or any(not all(_eq(a, b) for a, b in zip(r1, r2)) for r1, r2 in zip(exp, got)):
+    if len(exp) != len(got) or any(r2 is None or not all(_eq(a, b) for a, b in zip(r1, r2)) for r1, r2 in zip(exp, got)):
         return (f"reconverge_{what}:merged-set", f"{len(exp)} successful re-searches but {len(got)} merged", {})
     for i, (b, rec, a) in enumerate(sim.events):
         ts, plus, minus = rec
